@@ -9,7 +9,10 @@ EXPLANATION = (
     "config.respect_gitignore; (G2) provenance of the matcher argument: git matches against the path relative to the "
     "directory of the .gitignore, so the argument must derive from a relative_to(...) computation, not from an os.walk "
     "basename; (G3) the per-level specs must not be combined as a plain disjunction, which cannot express a deeper negation "
-    "overriding a shallower match; (G4) patterns are compiled with pathspec's gitignore factory. Agreement with `git "
+    "overriding a shallower match; (G4) patterns are compiled with pathspec's gitignore factory; (G5) the rule lines of an "
+    "ignore file reach that factory in file order with their repetitions (no set / sorted / dict.fromkeys / reversed on the "
+    "way: the last matching line wins in git); (cache) a spec chain that is stored in a memo table, or handed out by a "
+    "memoising method, is never changed in place (it would be shared by all directories of a walk). Agreement with `git "
     "check-ignore` on concrete trees is a differential, runtime question and is not decided. G2/G3 fail today at both sites: "
     "genuine, recorded findings (F-16)."
 )
@@ -20,4 +23,7 @@ def run(ctx: Ctx) -> None:
     ctx.rule("R-GITIGNORE-G2", "the matcher argument is the path relative to the .gitignore's directory")
     ctx.rule("R-GITIGNORE-G3", "specs of different levels are not combined by plain disjunction (negation override)")
     ctx.rule("R-GITIGNORE-G4", "patterns are compiled with pathspec's gitignore syntax")
+    ctx.rule("R-GITIGNORE-G5", "rule lines are compiled in file order, repetitions included")
+    ctx.rule("R-RESOLVE-cache", "values held in memo tables (or returned by memoising methods) are not mutated in place")
     ctx.run(resolve.check_gitignore)
+    ctx.run(resolve.check_cached_values_not_mutated)
